@@ -100,7 +100,8 @@ type SchedStats struct {
 	SemaFull     int64  `json:"sema_full"` // a Send found its channel full
 	RetryRounds  int64  `json:"retry_rounds,omitempty"`
 	Rendezvous   int64  `json:"rendezvous,omitempty"` // unbuffered channel hand-offs
-	Hash         uint64 `json:"hash"`                 // FNV over (from,to,site) of every hand-over
+	AtomicPoints int64  `json:"atomic_points,omitempty"`
+	Hash         uint64 `json:"hash"` // FNV over (from,to,site) of every hand-over
 	Truncated    bool   `json:"decisions_truncated,omitempty"`
 	Abort        int    `json:"abort,omitempty"`
 }
@@ -143,13 +144,14 @@ var (
 	stats     SchedStats
 
 	// channel rendezvous registry (unbuffered channels): what a blocked task waits for
-	slotWaitCh  [MaxSlots][maxWait]uintptr // what a blocked task waits for (a select waits for several)
-	slotWaitDir [MaxSlots][maxWait]int8
-	slotWaitN   [MaxSlots]int32
-	slotWaitSeq [MaxSlots]int64
-	slotCommit  [MaxSlots]int32 // -1, or the index of the wait entry a partner committed to
-	waitSeq     int64
-	selRand     Rand // choice among the ready cases of a select
+	slotWaitCh      [MaxSlots][maxWait]uintptr // what a blocked task waits for (a select waits for several)
+	slotWaitDir     [MaxSlots][maxWait]int8
+	slotWaitN       [MaxSlots]int32
+	slotWaitSeq     [MaxSlots]int64
+	slotCommit      [MaxSlots]int32 // -1, or the index of the wait entry a partner committed to
+	waitSeq         int64
+	selRand         Rand // choice among the ready cases of a select
+	atomicDemotions int
 	// consecutive block() calls since the last event that can unblock somebody
 	sinceProgress int64
 
@@ -188,7 +190,7 @@ func Start(cfg *SchedConfig) {
 		slotCommit[i] = -1
 	}
 	selRand = Rand{s: mix64(cfg.PrioSeed ^ cfg.RWSeed*0x9e3779b97f4a7c15 ^ 0x73656c656374)}
-	waitSeq, sinceProgress = 0, 0
+	waitSeq, sinceProgress, atomicDemotions = 0, 0, 0
 	hiSlot = 1
 	for i := range wgKeys {
 		wgKeys[i] = 0
@@ -780,6 +782,52 @@ func TaskEnd(slot int32) {
 	}
 	record(n, REnd, -3)
 	handover(n, -3, false)
+}
+
+// After is spliced around a value-returning atomic operation: the operation has been
+// performed when the yield point is reached.
+func After[T any](site int32, v T) T {
+	YieldAtomic(site)
+	return v
+}
+
+// YieldAtomic is the yield point that follows an atomic operation. The window between two
+// atomic operations of one task is a handful of instructions wide, far too narrow for
+// switch points drawn uniformly over a run's steps, so these points are biased: a random
+// walk switches here with probability 1/2, a priority schedule demotes the running task
+// here with probability 1/4 (at most 16 times per run).
+//
+//go:norace
+func YieldAtomic(site int32) {
+	if !active || noPreempt > 0 {
+		return
+	}
+	steps++
+	if int(site) < len(siteHits) {
+		siteHits[site]++
+	}
+	stats.AtomicPoints++
+	switch strat {
+	case StratRW:
+		if rwRand.Uint64()&1 == 0 {
+			resched(site, RYield)
+			computeNextSw()
+			return
+		}
+	case StratPrio:
+		if prioRule >= PrioRandom && atomicDemotions < 16 && selRand.Uint64()&3 == 0 {
+			atomicDemotions++
+			slotPrio[curSlot] = lowPrio
+			lowPrio--
+			resched(site, RYield)
+			return
+		}
+	case StratExplicit:
+		// the recorded decision list decides (matched by step in slowYield)
+	}
+	if steps >= nextSw {
+		slowYield(site)
+	}
 }
 
 // NoPreempt brackets a region in which the running task keeps the baton.
